@@ -24,7 +24,13 @@ def run(ctx):
                 'distinct (with and without count), conflicts (missing, include/exclude), isunique x buffersize: real vs model '
                 '(exact sequence) and vs a Counter-of-keys oracle (membership by key multiplicity). Non-trivial: some key repeats.')
     ctx.assumptions += ['raw == on key tuples agrees with the Comparable equality used by the sort (hashable cells, no lists)']
-    ctx.prove(['PetlProofs.Props.C10'], REQUIRED)
+    from translators import argforms as _af
+    try:
+        _info = _af.generate()
+        ctx.bridge('translator: truthiness tests on selection-like arguments in %d functions (%d sites)' % (_info['functions'], len(_info['sites'])), True)
+    except Exception as e:   # noqa
+        ctx.bridge('translator: argument-form sites extracted', False, repr(e))
+    ctx.prove(['PetlProofs.Props.C10', 'PetlProofs.Props.ArgForms'], REQUIRED + ['Petl.ArgForms.selection_arguments_not_tested_by_truthiness'])
     rng = ctx.rng
     n = 2500 if ctx.thorough() else 400
     jobs = []
